@@ -25,7 +25,7 @@ ASSUMPTIONS = [
     'the generator only emits event sequences consistent with the truth (heavy steps above both thresholds, tail below)',
     'smallest effect of a wrong sample, step or level is one time step (>= 900 s) or one grid cell, far above the tolerances',
 ]
-SIZES = {'quick': dict(n=72, sub=2), 'thorough': dict(n=4000, sub=32)}
+SIZES = {'quick': dict(n=120, sub=2), 'thorough': dict(n=4000, sub=32)}
 REQUIRED = {
     tier: {
         'workflows-completed': 30,
